@@ -16,7 +16,7 @@ EXPLANATION = (
     "decodes the slice's records with a real reference repository — violated today: it passes Repository::default(), so "
     "building the index of a noodles-written CRAM whose slices hold several references fails (known finding F12a); "
     "(R5) crai writer and reader both handle six columns."
-    " (R6) span accumulation: ReferenceSequenceContext::update builds the new slice span as (min(record start, previous start), max(record end, previous end)).")
+    " (R6) span accumulation: ReferenceSequenceContext::update builds the new slice span as (min(record start, previous start), max(record end, previous end)). (R7) the per-slice range map of the multi-reference indexer does not outlive the slice.")
 ASSUMPTIONS = ["container offsets come from Reader::position() before read_container (value not decided)"]
 NOT_DECIDED = ["that spans/offsets/landmarks in the index are TRUE (value-level)", "that the query equals the filtered scan for every file layout",
                "the container loader re-reads a container once per index entry: duplicates when one container holds several slices of the queried "
